@@ -25,7 +25,7 @@ from vf.refvm import adump
 from vf.symlib import native, pin
 
 PROPERTY = "C13"
-RULE = "Program and query sequence (alphabet of 11 read-only queries, length <= bound) are solver-partitioned; every answer is compared with a fresh parse."
+RULE = "Program and query sequence (alphabet of 13 read-only queries, length <= bound) are solver-partitioned; every answer is compared with a fresh parse."
 ASSUMPTIONS = [
     "finite product space: programs x query sequences are pinned (solver-certified exhaustive partition), queries run natively",
     "an answer that raises must raise the same exception type on the fresh parse",
@@ -33,10 +33,15 @@ ASSUMPTIONS = [
     "object addresses printed by FROZENSET nodes (a recorded C05 finding) are normalised before comparing text",
 ]
 
-EXTRA = [b"cos\nsystem\n(S'id'\ntRcposix\nsystem\n(S'x'\ntR\x86.", b"czqv\nf\nczqv\ng\nczqv\nh\n\x87.",
+EXTRA = [b"(I1\nI2\nd(I3\nI4\nu.", b"czqv\nf\n)R(K\x01K\x02u.", b"czqv\nf\n)RK\x01K\x02s.", b"]czqv\nf\n)Ra.",
+         b"cos\nsystem\n(S'id'\ntRcposix\nsystem\n(S'x'\ntR\x86.", b"czqv\nf\nczqv\ng\nczqv\nh\n\x87.",
          b"\x80\x04\x80\x04N.", b"(S'k'\nI1\nS'j'\nI2\nd.", b"c__builtin__\neval\n(S'1'\ntR0c__builtin__\nexec\n(S'2'\ntR."]
+# pairs that share an attribute name between a stdlib module and a non-stdlib one / builtins: state kept per *name*
+# across pickles (instead of per analysed object) changes the second one's findings
+SHADOW = [b"ccollections\nOrderedDict\n)R.", b"czqv\nOrderedDict\n)R.", b"c_codecs\nencode\n(X\x01\x00\x00\x00aX\x06\x00\x00\x00latin1tR.",
+          b"czqv\nencode\n(X\x07\x00\x00\x00payloadtR.", b"coperator\ngetattr\n.", b"c__builtin__\ngetattr\n(X\x03\x00\x00\x00abcX\x05\x00\x00\x00uppertR."]
 NATURAL = [pickle.dumps(o, p) for o in ([1, [2, 3]], {"a": {1, 2}, "b": (1, 2)}, [{"k": 1}] * 2) for p in (0, 2, 4)]
-PROGS = list(TRACE_PROGS) + EXTRA + NATURAL
+PROGS = list(TRACE_PROGS) + EXTRA + SHADOW + NATURAL
 
 import re
 _ADDR = re.compile(r"0x[0-9a-f]+")
@@ -60,6 +65,8 @@ QUERIES = [
     ("imports", lambda p: [adump(n) for n in p.properties.imports]),
     ("calls", lambda p: [adump(n) for n in p.properties.calls]),
     ("has", lambda p: (p.has_import, p.has_call, p.has_non_setstate_call)),
+    ("has_call", lambda p: p.has_call),                         # each summary also alone: asked first, nothing is cached yet
+    ("has_nss_call", lambda p: p.has_non_setstate_call),
     ("unsafe_imports", lambda p: [adump(n) for n in p.unsafe_imports()]),
     ("nonstd_imports", lambda p: [adump(n) for n in p.non_standard_imports()]),
     ("trace", _trace),
@@ -76,20 +83,40 @@ def ask(p, q):
 
 
 def make_lemma(first):
-    def lem(i: int, qs: List[int]) -> bool:
+    def lem(i: int) -> bool:
         """
-        pre: 0 <= i < 48 and len(qs) <= 3 and all(0 <= q < 11 for q in qs)
+        pre: 0 <= i < 64
         post: _
         """
-        if i >= len(PROGS) or len(qs) + 1 > QMAX[0]:
+        if i >= len(PROGS):
             return True
         i = pin(i, 0, len(PROGS) - 1)
-        seq = [first] + [pin(q, 0, len(QUERIES) - 1) for q in qs]
         with native():
-            return _run(PROGS[i], seq)
+            # the continuations of the sequence are enumerated inside the cell
+            nq = len(QUERIES)
+            seqs = [[first]] + [[first, a] for a in range(nq)] + [[first, a, b] for a in range(nq) for b in range(nq)]
+            if QMAX[0] >= 4:
+                seqs += [[first, a, b, c] for a in range(nq) for b in range(nq) for c in range(nq) if (a + b + c) % 5 == 0]
+            for seq in seqs:
+                if not _run(PROGS[i], seq):
+                    LAST[0] = "program %r, queries %s" % (PROGS[i], [QUERIES[q][0] for q in seq])
+                    return False
+            return True
 
     lem.__name__ = lem.__qualname__ = "queries_" + QUERIES[first][0]
     return lem
+
+
+LAST = [None]
+
+
+def make_replay(first):
+    lem = make_lemma(first)
+
+    def replay(i):
+        LAST[0] = None
+        return None if lem(i) else (LAST[0] or "lemma returns False")
+    return replay
 
 
 def _run(data, seq):
@@ -112,10 +139,12 @@ def _run(data, seq):
 QMAX = [3]
 
 
-def digests():
-    """digest of every answer for every program (used in-process and by the child interpreters)"""
+def digests(order=0):
+    """digest of every answer for every program (used in-process and by the child interpreters).
+    order 0: natural; 1: reversed (state leaking from one analysed pickle into the next shows as a different digest)"""
     out = []
-    for data in PROGS:
+    progs = list(PROGS) if order == 0 else list(reversed(PROGS))
+    for data in progs:
         try:
             p = Pickled.load(data)
         except Exception as e:
@@ -125,19 +154,20 @@ def digests():
         for q in range(len(QUERIES)):
             h.update(repr(ask(p, q)).encode())
         out.append(h.hexdigest())
-    return out
+    return out if order == 0 else list(reversed(out))
 
 
 def hashseed(s: int) -> bool:
     """
-    pre: 0 <= s < 3
+    pre: 0 <= s < 4
     post: _
     """
-    s = pin(s, 0, 2)
+    s = pin(s, 0, 3)
     with native():
-        seed = ["1", "2", "12345"][s]
+        seed = ["1", "2", "12345", "7"][s]
+        order = 1 if s == 3 else 0
         env = dict(os.environ, PYTHONHASHSEED=seed, PYTHONDONTWRITEBYTECODE="1")
-        code = "import sys, json; sys.path.insert(0, %r); import harness.c13 as H; print(json.dumps(H.digests()))" % os.path.dirname(os.path.dirname(os.path.abspath(__file__)))
+        code = "import sys, json; sys.path.insert(0, %r); import harness.c13 as H; print(json.dumps(H.digests(%d)))" % (os.path.dirname(os.path.dirname(os.path.abspath(__file__))), order)
         r = subprocess.run([sys.executable, "-c", code], env=env, capture_output=True, text=True, timeout=300)
         if r.returncode != 0:
             raise RuntimeError("child failed: " + r.stderr[-500:])
@@ -151,11 +181,11 @@ def lemmas(tier):
     L = []
     for first in range(len(QUERIES)):
         fn = make_lemma(first)
-        L.append(Lemma(fn.__name__, fn, timeout=400 if q else 3000, dry=[{"i": 4, "qs": [8, 0]}, {"i": 1, "qs": [2]}],
+        L.append(Lemma(fn.__name__, fn, timeout=400 if q else 3000, dry=[{"i": 4}, {"i": 1}], replay=make_replay(first),
                        doc={"F": ["%d programs (per-opcode coverage set, multi-import programs, natural pickles at protocols 0/2/4)" % len(PROGS),
-                                  "query sequences starting with %r, length <= %d over %s" % (QUERIES[first][0], QMAX[0], [n for n, _ in QUERIES])],
+                                  "solver-partitioned: program; enumerated per cell: every query sequence starting with %r of length <= 3 (and a fifth of the length-4 ones in thorough) over %s" % (QUERIES[first][0], [n for n, _ in QUERIES])],
                             "bound": "sequence length <= %d" % QMAX[0]}))
     L.append(Lemma("hashseed", hashseed, timeout=300, dry=[], twin=True,
-                   doc={"F": ["fresh interpreters under PYTHONHASHSEED=1,2,12345: digest of all answers for all programs equals the in-process digest"],
+                   doc={"F": ["fresh interpreters under PYTHONHASHSEED=1,2,12345 (natural program order) and 7 (reversed program order, so that state leaking from one analysed pickle into the next shows): digest of all answers for all programs equals the in-process digest"],
                         "bound": "not a solver claim (see ASSUMPTIONS)"}))
     return L
